@@ -284,7 +284,7 @@ func resultNames(fn *ssa.Function) []string {
 // modelled memory (assumption: well-behaved callees).
 func (fr *frame) dynamicCall(x *ssa.Call, v *Term, args []*Term, st *state) {
 	g := fr.g
-	g.usedAssumptions["dynamic calls (function values not statically known) return arbitrary well-typed results and do not modify modelled memory"] = true
+	g.usedAssumptions["dynamic calls (function values not statically known) return arbitrary well-typed results and do not modify modelled memory other than the elements of the argument slice an operator is given"] = true
 	g.safety(fr, st, "nil-func-call", fr.srcAnchor(x.Pos(), isCall, "call"), x.Pos(), "(not (= "+v.S+" 0))")
 	fr.callSiteObligations(x, v, args, st)
 	if !fr.isOperatorSig(x.Common().Signature()) {
@@ -312,6 +312,21 @@ func (fr *frame) dynamicCall(x *ssa.Call, v *Term, args []*Term, st *state) {
 			}
 		}
 		fr.havocMods(all, st)
+	}
+	if fr.isOperatorSig(x.Common().Signature()) && len(args) == 2 {
+		// an operator receives its arguments in a slice it may write through: after the call the elements
+		// params[0..len) are arbitrary (everything else in modelled memory is untouched)
+		if slt, ok := x.Common().Args[1].Type().Underlying().(*types.Slice); ok {
+			ps := args[1].S
+			for _, lf := range g.leaves("E_"+typeKey(slt.Elem()), slt.Elem()) {
+				ls := g.leafSort(lf.typ)
+				old := g.base(st, lf.name, ls, 2, false)
+				A := g.fresh(fr.name(x)+"_scribble", "(Array Int "+ls+")")
+				nv := g.newVersion(st, lf.name)
+				g.assert("(= " + nv + " (store " + old + " (s_arr " + ps + ") " + A + "))")
+				g.assert("(forall ((j Int)) (! (=> (or (< j (s_off " + ps + ")) (>= j (+ (s_off " + ps + ") (s_len " + ps + ")))) (= (select " + A + " j) (select (select " + old + " (s_arr " + ps + ")) j))) :pattern ((select " + A + " j))))")
+			}
+		}
 	}
 	// ghost call log (callee id per call); results are uninterpreted functions of (callee, call number):
 	// arbitrary per call, yet nameable in contracts as (dynres_<i>_<sort> fn k)
